@@ -307,13 +307,55 @@ def leg_py_fstrings(ns, res, spec):
         if err is not None or out != exp:
             res.violation('py:fstring-variable-not-bound', '[py] %s over %r -> %r (error %r) ; expected %r' % (q, A, out, err, exp), {'leg': 'py-fstrings', 'query_text': q, 'A': A, 'engine': 'py'})
     res.sample({'leg': 'py-fstrings', 'queries': [t[0] for t in T[:4]]})
+    # user helpers whose NAMES are RBQL keywords (numpy's where(), a limit() / join() / select() of one's own), called inside the expressions: a keyword
+    # is a word followed by white space - `where(` is a call.  Python through user_init_code, JS through its init code.
+    from ..js import bridge
+    init_py = 'def where(c, x, y):\n    return x if c else y\ndef limit(v, n):\n    return v[:n]\ndef join(x, y):\n    return x + "+" + y\ndef select(x):\n    return "<" + x + ">"\ndef update(x):\n    return x.upper()\ndef top(x):\n    return x[:1]\ndef distinct(x):\n    return x\ndef order(x):\n    return len(x)\n'
+    init_js = 'function where(c, x, y) { return c ? x : y; }\nfunction limit(v, n) { return v.slice(0, n); }\nfunction join(x, y) { return x + "+" + y; }\nfunction select(x) { return "<" + x + ">"; }\nfunction update(x) { return x.toUpperCase(); }\nfunction top(x) { return x.slice(0, 1); }\nfunction distinct(x) { return x; }\nfunction order(x) { return x.length; }\n'
+    K = [
+        ('select a1, where(%s > 1, "long", "short")', lambda A: [[r[0], 'long' if len(r[0]) > 1 else 'short'] for r in A]),
+        ('select NR, limit(a2, 1), a3', lambda A: [[i + 1, r[1][:1], r[2]] for i, r in enumerate(A)]),
+        ('select join(a1, a2) where limit(a1, 1) != "b"', lambda A: [[r[0] + '+' + r[1]] for r in A if r[0][:1] != 'b']),
+        ('select a1 where where(a2 == "b", False, True)'.replace('False', '%F').replace('True', '%T'), lambda A: [[r[0]] for r in A if r[1] != 'b']),
+        ('select select(a1), update(a2), top(a3), distinct(a1)', lambda A: [['<' + r[0] + '>', r[1].upper(), r[2][:1], r[0]] for r in A]),
+        ('select a1, a2 order by order(a1), where(a2 == "", 1, 0)', lambda A: [[r[0], r[1]] for r in sorted(A, key=lambda r: (len(r[0]), 1 if r[1] == '' else 0))]),
+        ('select a2 where order(a1) == 1 limit 2', lambda A: [[r[1]] for r in A if len(r[0]) == 1][:2]),
+    ]
+    node = bridge.Node.start()
+    try:
+        for n in range(max(28, spec['n'] // 4)):
+            A = [[rng.choice(['a', 'b', 'ab', '', '10']) for _ in range(3)] for _ in range(rng.randrange(1, 7))]
+            q0, expf = K[n % len(K)]
+            exp = expf(A)
+            for engine in ('py', 'js'):
+                q = q0.replace('%s', 'len(a1)' if engine == 'py' else 'a1.length').replace('%F', 'False' if engine == 'py' else 'false').replace('%T', 'True' if engine == 'py' else 'true')
+                out, err = [], None
+                if engine == 'py':
+                    try:
+                        ns.rbql.query_table(q, [list(r) for r in A], out, [], None, None, None, None, True, init_py)
+                    except Exception as e:
+                        err = '%s: %s' % (util.error_class(e), str(e)[:120])
+                elif node is None:
+                    continue
+                else:
+                    o = node.call({'op': 'query_table', 'query': q.replace(' != ', ' != ').replace(' == ', ' == '), 'input': [list(r) for r in A], 'join': None, 'input_cols': None, 'join_cols': None, 'init_code': init_js})
+                    out, err = o['out'], o['error'] and '%s: %s' % (o['error']['cls'], o['error']['msg'][:120])
+                res.evaluations += 1
+                res.count('keyword_named_helper_runs:' + engine)
+                res.nontrivial('kw-helpers', engine, q, repr(A))
+                if err is not None or out != exp:
+                    res.violation('%s:call-of-helper-named-like-a-keyword' % engine, '[%s] %s (helpers where / limit / join / select / update / top / distinct / order defined in the init code) over %r -> %r (error %r) ; expected %r' % (
+                        engine, q, A, out, err, exp), {'leg': 'kw-helpers', 'query_text': q, 'A': A, 'engine': engine})
+    finally:
+        if node is not None:
+            node.close()
 
 
 def summarize(tier, seed, m):
     shapes = sorted(k[6:] for k in m['counters'] if k.startswith('shape:'))
     return {
         'rule': 'structured SELECT queries (1-4 items over fields in 5 spellings, typed expressions, literals, *, a.*, b.*, * EXCEPT, UNNEST; WHERE; INNER/LEFT JOIN with 1-3 key pairs incl. NR/bNR; TOP) generated with a systematic sweep over the 64 clause combinations plus seeded random choices, on random tables of str/None cells (ragged, empty, up to 40 rows, 12 columns), with and without header; each executed through rbql.query with probe iterator/writer/registry and compared (rows exactly and in order, header, error class + record number) with the reference interpreter; the language-neutral ones also on the JS engine; a typed front-ends leg: dataframes (int64 / float64 / bool / object columns, all-numeric frames, integers beyond 2**53, a named index, a two-level named index) through DataframeIterator and sqlite tables (INTEGER / REAL / TEXT / BLOB / untyped columns with NULLs) through SqliteRecordIterator, ten select / where shapes each (two of them with the bare cell as the predicate, over columns holding NaN, inf, 0, 0.0, empty strings and NULLs), every emitted field compared with the cell by value AND type; a JS template-literal leg: ten select / where shapes whose items are template literals with column references inside ${...} and quote characters around them, and eleven shapes (WHERE, ORDER BY, JOIN + WHERE, UPDATE, DISTINCT, named columns) whose variables occur only inside the template literals of one clause; a Python f-string leg: fifteen shapes whose variables (aN, a[N], a.name, a["name"], bN, NR, NF, NU, bNR) occur only inside f-strings (select list, WHERE, ORDER BY, JOIN + WHERE, UPDATE, DISTINCT, TOP). distinct_nontrivial = distinct (query text, tables) with a non-empty reference result or a predicted error.',
-        'required': ['py_cases', 'emitted_records_observed', 'js_cases', 'typed_front_end_runs:pandas', 'typed_front_end_runs:sqlite', 'js_template_literal_runs', 'py_fstring_runs'],
+        'required': ['py_cases', 'emitted_records_observed', 'js_cases', 'typed_front_end_runs:pandas', 'typed_front_end_runs:sqlite', 'js_template_literal_runs', 'py_fstring_runs', 'keyword_named_helper_runs:py', 'keyword_named_helper_runs:js'],
         'extra': {'shapes_seen': shapes},
         'assumptions': ['rv/model/refsem.py is the relational semantics of the statement', 'expressions are drawn from the typed vocabulary of rv/model/qast.py'],
     }
